@@ -737,3 +737,48 @@ def broadcast_as_spec(ty, cfg, n, args, ev, To):
     s = args[0][0]
     label = 'broadcast_as<%s>(%s v): every lane = static_cast<%s>(v)' % (D.c, ty.c, D.c)
     return _conv_lanes(ty, D, [s] * nn, _ret_lanes(ev, nn, D.bits), label)
+
+
+# ---------------------------------------------------------------- C16 interleaved complex loads / stores
+def cload_spec(aligned, part):
+    def f(ty, cfg, n, args, ev):
+        W = ty.bits
+        total = 2 * n * W // 8
+        label = 'complex load: reads exactly [0,%d) bytes, lane i of %s = memory element %s' % (total, 'real()' if part == 're' else 'imag()', '2i' if part == 're' else '2i+1')
+        if ev.writes or ev.var_access:
+            return False, label, 'P', 'memory written / indexed access in a load'
+        e = _footprint(ev.reads, 'arg:p', total, 'read')
+        if e:
+            return False, label, 'P', e
+        e = _align_ok(ev.reads, cfg.bits // 8 if aligned else W // 8, 'read')
+        if e:
+            return False, label, 'P', e
+        off = 0 if part == 're' else 1
+        want = [T.atom_bv('p', 2 * i + off, W) for i in range(n)]
+        ok, _, _, why = _lanes_check(ty, cfg, n, ev, want, label)
+        return ok, label, 'P', why
+    return f
+
+
+def cstore_spec(aligned):
+    def f(ty, cfg, n, args, ev):
+        re, im = args[0], args[1]
+        W = ty.bits
+        total = 2 * n * W // 8
+        label = 'complex store: writes exactly [0,%d) bytes, element i = (real lane i, imag lane i)' % total
+        if ev.reads or ev.var_access:
+            return False, label, 'P', 'the destination (or other argument memory) is read'
+        e = _footprint(ev.writes, 'arg:o', total, 'written')
+        if e:
+            return False, label, 'P', e
+        e = _align_ok(ev.writes, cfg.bits // 8 if aligned else W // 8, 'write')
+        if e:
+            return False, label, 'P', e
+        mem = ev.mem.get('arg:o', {})
+        for i in range(n):
+            for (k, src, nm) in ((0, re, 'real'), (1, im, 'imag')):
+                got = T.cat(*[mem[(2 * i + k) * W // 8 + b_] for b_ in range(W // 8)])
+                if got != src[i]:
+                    return False, label, 'P', 'memory element %d (%s part of complex %d) receives %s instead of %s lane %d' % (2 * i + k, nm, i, T.fmt(got, 3)[:160], nm, i)
+        return True, label, 'P', ''
+    return f
